@@ -73,6 +73,24 @@ def enum_sets(quick: bool):
                     yield {"algorithm": algo, "policies": kids2}, f"nested|{algo}"
 
 
+def enum_deep():
+    """a deciding policy wrapped in d nested single-child sets, next to a sibling of the opposite effect: nesting depth is unbounded
+    in the statement ("at any nesting depth"), so depths far beyond what a document normally has are part of it."""
+    P = {"algorithm": "deny-overrides", "id": "P", "rules": [template("permit", 0)]}
+    D = {"algorithm": "deny-overrides", "id": "D", "rules": [template("deny", 0)]}
+    N = {"algorithm": "deny-overrides", "id": "N", "rules": [template("action", 0)]}
+    for depth in (6, 20, 33, 34, 48, 90):
+        for leaf, sib in ((D, P), (P, D), (P, N), (N, P), (D, N)):
+            for walgo in gen.ALGOS:
+                inner = leaf
+                for k in range(depth):
+                    inner = {"algorithm": walgo, "id": f"w{k}", "policies": [inner]}
+                for algo in gen.ALGOS:
+                    for order in (0, 1):
+                        kids = [inner, sib] if order == 0 else [sib, inner]
+                        yield {"algorithm": algo, "policies": kids}, f"deep{depth}|{algo}"
+
+
 def impl(policy: dict, env: dict) -> dict:
     try:
         raw = rset.decide(policy, env) if "policies" in policy else rpolicy.evaluate(policy, env)
@@ -93,6 +111,8 @@ def cases(run: lib.Run, scale: int = 1):
     for pol, label in enum_policies(4 if quick else 6):
         yield pol, ENV, label
     for pol, label in enum_sets(quick):
+        yield pol, ENV, label
+    for pol, label in enum_deep():
         yield pol, ENV, label
     r = random.Random(run.seed * 7919 + 2)
     n = (1500 if quick else 15000) * scale
@@ -154,7 +174,7 @@ def shrink(case: dict) -> dict:
 
 def check(run: lib.Run, audit: dict) -> int:
     run.rule = ("exhaustive: every outcome sequence (6 classes) of length ≤4 (quick) / ≤6 (thorough) × 3 algorithms, every set of "
-                "≤2/≤3 children from a policy pool × 3 algorithms + one level of nesting; random: schema-grammar policies/sets "
+                "≤2/≤3 children from a policy pool × 3 algorithms + one level of nesting; deciding policies wrapped in 6…90 nested sets; random: schema-grammar policies/sets "
                 "(nested, with ids) with requests generated towards them. non-trivial = some rule applied (reason matched/explicit_deny)")
     run.exhaustive = True
     run.assumptions = ["rules are JSON objects; effect/algorithm are strings (schema)",
